@@ -808,8 +808,14 @@ func (x *Exec) callClosure(c *Closure, args []Value, e ast.Node, st *State) Valu
 
 // callWithContract: assert requires, havoc modifies, assume ensures.
 func (x *Exec) callWithContract(fu *FuncUnit, uc *UnitContract, recv *Value, args []Value, e ast.Node, st *State) Value {
-	x.callCount[fu.Name]++
-	ord := x.callCount[fu.Name]
+	ord := 0
+	if ce, ok := e.(*ast.CallExpr); ok {
+		ord = x.callOrd[ce]
+	}
+	if ord == 0 {
+		x.callCount[fu.Name]++
+		ord = 100 + x.callCount[fu.Name]
+	}
 	bind := x.bindParams(fu, recv, args, st, false)
 	sp := &SpecCtx{bound: bind, macros: []map[string]*Macro{uc.Macros, x.cs.Global}, pkg: fu.Pkg.Types, scope: fu.Pkg.Types.Scope(), pos: token.NoPos}
 	if uc.Trusted {
